@@ -293,7 +293,8 @@ func (p *printVisitor) LeaveArgument(ref int) {
 
 func (p *printVisitor) EnterOperationDefinition(ref int) {
 
-	if p.document.OperationDefinitions[ref].Description.IsDefined {
+	hasDescription := p.document.OperationDefinitions[ref].Description.IsDefined
+	if hasDescription {
 		p.must(p.document.PrintDescription(p.document.OperationDefinitions[ref].Description, nil, 0, p.out))
 		p.write(literal.LINETERMINATOR)
 	}
@@ -304,8 +305,8 @@ func (p *printVisitor) EnterOperationDefinition(ref int) {
 
 	switch p.document.OperationDefinitions[ref].OperationType {
 	case ast.OperationTypeQuery:
-		// the shorthand form is only valid for a bare selection set
-		if hasName || hasVariables || hasDirectives {
+		// the shorthand form is only valid for a bare selection set; a description can only stand in front of a keyword
+		if hasName || hasVariables || hasDirectives || hasDescription {
 			p.write(literal.QUERY)
 		}
 	case ast.OperationTypeMutation:
